@@ -364,6 +364,15 @@ func (c *Ctx) BVOp(op string, a, b *Term) *Term {
 	if op == "bvsub" && b.IsLit() && b.Val.Sign() == 0 {
 		return a
 	}
+	if op == "bvmul" {
+		// x * 1 = x (element index scaling by one slot): keeps index terms syntactically equal across axioms and goals
+		if a.IsLit() && a.Val.Cmp(big.NewInt(1)) == 0 {
+			return b
+		}
+		if b.IsLit() && b.Val.Cmp(big.NewInt(1)) == 0 {
+			return a
+		}
+	}
 	return c.mk(&Term{Op: op, Args: []*Term{a, b}, Sort: a.Sort})
 }
 
